@@ -24,7 +24,7 @@ BUDGET = {"quick": 900, "thorough": 7200}
 
 
 def plan(tier):
-    n = 140 if tier == "quick" else 3000
+    n = 300 if tier == "quick" else 3000
     return [{"kind": "hyp", "n": n} for _ in range(16)]
 
 
